@@ -102,6 +102,7 @@ func c06Run(r *core.Run) {
 	proxy := extra&2 != 0
 
 	s := NewStd(r)
+	s.DrawLive()
 	s.DrawClockKnobs()
 	switch cfgKind {
 	case 1:
